@@ -51,6 +51,11 @@ impl ProcessRegistry {
 
     pub async fn register(&self, name: Atom, pid: ExternalPid) -> Result<()> {
         let mut names = self.by_name.write().await;
+        // only a process that is in the registry can own a name: checked while the names are locked,
+        // so that `remove`, which sweeps the names after it has dropped the process, cannot miss this one
+        if !self.by_pid.read().await.contains_key(&pid) {
+            return Err(Error::ProcessNotFound(pid));
+        }
         match names.entry(name.clone()) {
             Entry::Occupied(_) => Err(Error::NameAlreadyRegistered(name)),
             Entry::Vacant(e) => {
